@@ -1,5 +1,5 @@
 SPECIFICATION Spec
 CONSTANTS
   Ns <- TNs
-  Cultures = {"es-es", "fr-fr", "de-de", "zh-cn", "ja-jp"}
+  Cultures = {"es-es", "fr-fr", "de-de", "zh-cn", "ja-jp", "pt-br", "it-it", "nl-nl"}
 CHECK_DEADLOCK FALSE
